@@ -109,6 +109,23 @@ def empty_side_queries():
     return out
 
 
+# Nested-loop LEFT / SEMI / ANTI / MARK joins: the left drain must not start before EVERY partition finished
+# probing.  Build side = table filled by several INSERTs (>= 2 segments); probe side = generate_series whose
+# matching rows come only in the last batches (skewed onto one partition).  Row-level comparison with the
+# 1-partition run is what detects a drain that starts early (spurious unmatched / unmarked rows).
+SETUP_NLJ = ["create temp table bt (k int)"] + \
+    ["insert into bt select a from generate_series(%d, %d) s(a)" % (199951 + 10 * i, 199960 + 10 * i) for i in range(5)] + \
+    ["insert into bt select a from generate_series(300001, 300010) s(a)", "set enable_hash_joins to false"]
+NLJ_QUERIES = {
+    "nlj_left_rows": "select bt.k, g.a from bt left join generate_series(1,200000) g(a) on bt.k = g.a",
+    "nlj_left_nonequi": "select bt.k, g.a from bt left join generate_series(1,200000) g(a) on bt.k <= g.a and bt.k + 0 >= g.a",
+    "nlj_semi_rows": "select k from bt where k in (select a from generate_series(1,200000) g(a))",
+    "nlj_anti_rows": "select k from bt where k not in (select a from generate_series(1,200000) g(a))",
+    "nlj_mark_rows": "select k, k in (select a from generate_series(1,200000) g(a)) from bt",
+    "nlj_left_agg": "select count(*), count(g.a), sum(bt.k) from bt left join generate_series(1,200000) g(a) on bt.k = g.a",
+}
+
+
 def nolimit_sql(sql):
     """the un-limited query whose rows a LIMIT result must be drawn from (None if not of that shape)"""
     import re
@@ -296,6 +313,13 @@ def stage_det(ctx, rng, gbin):
                 picks = [(16, "fifo"), (16, "lifo"), (8, "starve_first"), (4, "starve_last"), (2, "lifo")]
             for j, (pp, kk) in enumerate(picks):
                 cases.append(det_case("%s-%d" % (nm, j), nm, setup, sql, pp, sched(rng, kk)))
+    # nested-loop joins with a left drain: barrier order
+    for name, sql in NLJ_QUERIES.items():
+        cases.append(det_case("base-" + name, name, SETUP_NLJ, sql, 1, {"kind": "fifo", "seed": 1}))
+        combos = rng.shuffle([(pp, kk) for pp in (2, 4, 8, 16) for kk in ("fifo", "lifo", "starve_first", "starve_last", "random")])
+        picks = [(8, "fifo")] + combos[:(4 if quick else 20)]
+        for j, (pp, kk) in enumerate(picks):
+            cases.append(det_case("%s-%d" % (name, j), name, SETUP_NLJ, sql, pp, sched(rng, kk)))
     # systematic enumeration of every schedule prefix for small partition counts
     enum_names = ["hash_join", "hash_join_left_drain", "group_by", "distinct_aggregate", "order_by_limit", "order_by_full",
                   "union_all", "materialized_cte", "large_result", "series_join", "nested_loop_join", "ungrouped_distinct"]
